@@ -10,6 +10,7 @@ Each patch is applied to /repo, the checks are run, and the patch is undone stra
 Usage: tools/selftest.py [--only mutants|seeds|refactors|clean] [--jobs N] [name-substring ...]
 Writes /verif/selftest.log (one line per case) and exits non-zero on any miss / false alarm."""
 import json
+import re
 import os
 import subprocess
 import sys
@@ -70,7 +71,9 @@ def main():
                 continue
             if exp == "?":
                 pre = base.split("_")[0]
-                exp = DEFECT.get(pre) or pre.upper()
+                m_ = re.search(r"(?:^|_)c(\d\d)(?:_|$)", base)
+                # rN_cMM_*: a mutation applied on top of refactor RN (detection must survive the refactored form)
+                exp = DEFECT.get(pre) or ("C" + m_.group(1) if m_ else pre.upper())
             cases.append(("mutant:" + base, V + "/mutants/" + n, exp))
     if only in (None, "seeds"):
         for n in sorted(os.listdir(V + "/seeded")):
